@@ -21,7 +21,6 @@ from tqdm.auto import tqdm
 
 from pyxel.calibration import Algorithm, IslandProtocol
 from pyxel.calibration.fitting_datatree import ModelFittingDataTree
-from pyxel.calibration.util import slice_to_range
 
 if TYPE_CHECKING:
     import pygmo as pg
@@ -325,31 +324,30 @@ class ArchipelagoDataTree:
 
         # Get the target data
         if self.problem.sim_fit_range is not None:
-            slice_times, slice_rows, slice_cols = self.problem.sim_fit_range.to_slices()
-
             sim_fit_range_dct: dict[str, slice] = dict(
                 self.problem.sim_fit_range.to_dict()
             )
-            if time_value := sim_fit_range_dct.get("time"):  # TODO: Fix this
-                sim_fit_range_dct["readout_time"] = time_value
-                del sim_fit_range_dct["time"]
+            if "time" in sim_fit_range_dct:
+                sim_fit_range_dct["readout_time"] = sim_fit_range_dct.pop("time")
 
             all_data_fit_range = all_simulated_full.isel(indexers=sim_fit_range_dct)
-            if readout.time_domain_simulation:
-                # TODO: Refactoring like this:
-                #       all_data_fit_range["target"] = self.problem.all_target_data
-                all_data_fit_range["target"] = xr.DataArray(
-                    self.problem.all_target_data,
-                    dims=["processor", "readout_time", "y", "x"],
-                    coords={
-                        "processor": range(len(self.problem.all_target_data)),
-                        "readout_time": slice_to_range(slice_times),
-                        "y": slice_to_range(slice_rows),
-                        "x": slice_to_range(slice_cols),
-                    },
-                )
-            else:
-                all_data_fit_range["target"] = self.problem.all_target_data
+
+            # The target region is compared element by element with the simulated
+            # region: it gets the labels of the simulated region (the two fit ranges
+            # may be shifted with respect to each other)
+            target: xr.DataArray = self.problem.all_target_data
+            all_data_fit_range["target"] = xr.DataArray(
+                target.to_numpy(),
+                dims=target.dims,
+                coords={
+                    name: (
+                        range(len(target))
+                        if name == "processor"
+                        else all_data_fit_range[name]
+                    )
+                    for name in target.dims
+                },
+            )
 
         else:
             all_data_fit_range = all_simulated_full
